@@ -348,7 +348,40 @@ def root({arg}: f32[4], {spare}: f32[4], y: f32[4, 4]):
 """
     return GenProgram(HEADER + text, "root", ["leaf", "mid"], [], {"template": "name_nest", "op_sequence": ["inline", "inline"], "prefer_ops": ["inline", "inline", "inline_window", "unroll_loop"]})
 
-ALL = [t_negdiv, t_negdiv, t_window_chain, t_window_chain, t_scoped_allocs, t_const_windows, t_mixed_prec, t_mixed_prec, t_index_identities, t_index_identities, t_sibling_ranges, t_sibling_ranges, t_window_forms, t_window_forms, t_name_nest, t_name_nest]
+
+def t_alloc_shapes(rng):
+    """heap allocations whose extents are compound expressions (%, /, +, - of sizes) in leading and
+    non-leading dimensions, and whose last use sits in a then- or else-branch, possibly followed by
+    more uses: allocation size, index linearisation and the place of free() all depend on them"""
+    e1 = _c(rng, ["n % 4", "n % 4", "n / 2", "n % 4 + 1", "m", "n - n / 2"])
+    pre = {"n % 4": "assert n % 4 >= 1", "n / 2": "assert n >= 2", "n % 4 + 1": "", "m": "", "n - n / 2": ""}[e1]
+    two_d = rng.random() < 0.7
+    shape = f"m, {e1}" if two_d else e1
+    idx = (lambda a, b: f"{a}, {b}") if two_d else (lambda a, b: b)
+    where = _c(rng, ["then", "else", "else", "after", "else_then_after"])
+    fill = f"for i in seq(0, m):\n        for j in seq(0, {e1}):\n            tmp[{idx('i', 'j')}] = x[i, j] + 1.0" if two_d else f"for j in seq(0, {e1}):\n        tmp[j] = x[0, j] + 1.0"
+    use = f"y[0, 0] += tmp[{idx('0', '0')}]"
+    use2 = f"y[m - 1, 0] = tmp[{idx('m - 1', '0')}] * 2.0" if two_d else f"y[m - 1, 0] = tmp[0] * 2.0"
+    if where == "then":
+        tail = f"if flag:\n        {use}\n    else:\n        y[0, 0] = 0.0"
+    elif where == "else":
+        tail = f"if flag:\n        y[0, 0] = 0.0\n    else:\n        {use}"
+    elif where == "after":
+        tail = f"{use}\n    {use2}"
+    else:
+        tail = f"if flag:\n        y[0, 0] = 0.0\n    else:\n        {use}\n    {use2}"
+    extra = "    other: f32[4]\n    other[0] = 1.0\n    y[0, 1] = other[0]\n" if rng.random() < 0.4 else ""
+    text = f"""@proc
+def root(n: size, m: size, x: f32[m, n + 4], y: f32[m, 4], flag: bool):
+    assert n <= 12
+    {pre if pre else 'assert m <= 6'}
+    tmp: f32[{shape}]
+    {fill}
+    {tail}
+{extra}"""
+    return GenProgram(HEADER + text, "root", [], [], {"template": "alloc_shapes", "prefer_ops": ["simplify", "lift_alloc", "sink_alloc"]})
+
+ALL = [t_negdiv, t_negdiv, t_window_chain, t_window_chain, t_scoped_allocs, t_const_windows, t_mixed_prec, t_mixed_prec, t_index_identities, t_index_identities, t_sibling_ranges, t_sibling_ranges, t_window_forms, t_window_forms, t_name_nest, t_name_nest, t_alloc_shapes, t_alloc_shapes]
 
 
 def any_ctemplate(rng):
